@@ -19,6 +19,8 @@ type FaultSpec struct {
 	// Match, when set, selects the position by the identity of the sub-request (text | variables)
 	// instead of Pos: the order of the requests inside a batch may legitimately vary (C13)
 	Match string `json:"match,omitempty"`
+	// Salt makes position-independent what would otherwise depend on Pos (the status of statusother)
+	Salt int `json:"salt,omitempty"`
 }
 
 // Identity of a sub-request as used by FaultSpec.Match.
@@ -96,7 +98,7 @@ func (f FaultSpec) Apply(applied *bool) Fault {
 				st, out, any := 0, []byte(nil), false
 				for _, p := range ps {
 					g := f
-					g.Match, g.Pos = "", p
+					g.Match, g.Pos, g.Salt = "", p, 1+len(f.Match)
 					a := false
 					s2, o2, e2, h2 := g.Apply(&a)(svc, call, reqs, cur)
 					if !h2 {
@@ -168,7 +170,14 @@ func (f FaultSpec) Apply(applied *bool) Fault {
 			// a non-2xx status that is not 500, with a perfectly well-formed body
 			*applied = true
 			out, _ := json.Marshal(resp)
-			return []int{300, 302, 400, 403, 404, 429, 503}[(f.Call+f.Pos+len(f.Svc))%7], out, nil, true
+			salt := f.Pos
+			if f.Match != "" {
+				salt = 1 + len(f.Match) // the position of the request in its batch may vary between executions
+			}
+			if f.Salt != 0 {
+				salt = f.Salt
+			}
+			return []int{300, 302, 400, 403, 404, 429, 503}[(f.Call+salt+len(f.Svc))%7], out, nil, true
 		case "emptylistforobject":
 			ok = mutateFirst(data, isObj, func(v interface{}) interface{} { return []interface{}{} })
 		case "errorsall":
